@@ -7,8 +7,22 @@ import (
 )
 
 // sortOf maps a Go type to its SMT sort (declaring struct datatypes on demand).
+// under: the underlying type; for a type parameter the underlying type of its core type
+// (S ~[]E has core type []E), so generic bodies are read like their instances.
+func under(t types.Type) types.Type {
+	if tp, ok := t.(*types.TypeParam); ok {
+		if iface, ok := tp.Constraint().Underlying().(*types.Interface); ok && iface.NumEmbeddeds() == 1 {
+			if un, ok := iface.EmbeddedType(0).(*types.Union); ok && un.Len() == 1 {
+				return under(un.Term(0).Type())
+			}
+		}
+		return tp.Constraint().Underlying()
+	}
+	return t.Underlying()
+}
+
 func (c *FuncCtx) sortOf(t types.Type) Sort {
-	switch u := t.Underlying().(type) {
+	switch u := under(t).(type) {
 	case *types.Basic:
 		switch {
 		case u.Info()&types.IsBoolean != 0:
@@ -61,27 +75,27 @@ func intWidth(b *types.Basic) int {
 }
 
 func isUnsigned(t types.Type) bool {
-	b, ok := t.Underlying().(*types.Basic)
+	b, ok := under(t).(*types.Basic)
 	return ok && b.Info()&types.IsUnsigned != 0
 }
 
 func isInteger(t types.Type) bool {
-	b, ok := t.Underlying().(*types.Basic)
+	b, ok := under(t).(*types.Basic)
 	return ok && b.Info()&types.IsInteger != 0
 }
 
 func isString(t types.Type) bool {
-	b, ok := t.Underlying().(*types.Basic)
+	b, ok := under(t).(*types.Basic)
 	return ok && b.Info()&types.IsString != 0
 }
 
 func isBoolean(t types.Type) bool {
-	b, ok := t.Underlying().(*types.Basic)
+	b, ok := under(t).(*types.Basic)
 	return ok && b.Info()&types.IsBoolean != 0
 }
 
 func widthOf(t types.Type) int {
-	if b, ok := t.Underlying().(*types.Basic); ok {
+	if b, ok := under(t).(*types.Basic); ok {
 		return intWidth(b)
 	}
 	return 64
@@ -118,7 +132,7 @@ func (c *FuncCtx) structSort(st *types.Struct) Sort {
 }
 
 func (c *FuncCtx) structInfoOf(t types.Type) *structInfo {
-	st, ok := t.Underlying().(*types.Struct)
+	st, ok := under(t).(*types.Struct)
 	if !ok {
 		return nil
 	}
@@ -145,7 +159,7 @@ func (c *FuncCtx) fieldUpd(v Term, t types.Type, i int, nv Term) Term {
 }
 
 func (c *FuncCtx) zero(t types.Type) Term {
-	switch u := t.Underlying().(type) {
+	switch u := under(t).(type) {
 	case *types.Basic:
 		switch {
 		case u.Info()&types.IsBoolean != 0:
@@ -235,7 +249,7 @@ func (c *FuncCtx) unbox(a Term, s Sort) Term {
 }
 
 func (c *FuncCtx) makeIface(v Term, t types.Type) Term {
-	if _, ok := t.Underlying().(*types.Interface); ok {
+	if _, ok := under(t).(*types.Interface); ok {
 		return v // interface to interface
 	}
 	tag := c.typeTag(t)
